@@ -13,6 +13,7 @@ import (
 	"fmt"
 	"net"
 	"net/http"
+	"sort"
 	"strconv"
 	"strings"
 	"time"
@@ -177,10 +178,31 @@ func runReExec(r *hk.Run, e *env, rng *hk.Rand, n int) {
 		q := c.R()
 		rq := newRefObj()
 		rq.rt = refRetry{max: budget, interval: 0, conds: []int{cond503}}
+		var rx []string // the history as a Coq term (Model/C19Run.v rx_step)
 		applyQ := func(s setter) {
 			e.reqSet(q, s, 0)
 			rq.apply(s)
 			prog = append(prog, "q: "+s.coq())
+			switch {
+			case s.K == "append":
+				rx = append(rx, fmt.Sprintf("RSet (UAddCookie %d)", s.Vs[0]))
+			case s.K == "mapset" && s.F == 0:
+				rx = append(rx, fmt.Sprintf("RSet (USetHeader %d %d)", s.Key, s.Val))
+			case s.K == "mapset" && s.F == 2:
+				rx = append(rx, fmt.Sprintf("RSet (USetForm %d %d)", s.Key, s.Val))
+			}
+		}
+		coqKV := func(m map[int][]int) string {
+			var ks []int
+			for k := range m {
+				ks = append(ks, k)
+			}
+			sort.Ints(ks)
+			parts := make([]string, len(ks))
+			for i, k := range ks {
+				parts[i] = fmt.Sprintf("(%d, %s)", k, coqNats(m[k]))
+			}
+			return "[" + strings.Join(parts, "; ") + "]"
 		}
 		for j, m := 0, rng.Range(0, 3); j < m; j++ {
 			applyQ(requestSetter())
@@ -204,6 +226,37 @@ func runReExec(r *hk.Run, e *env, rng *hk.Rand, n int) {
 					Input: map[string]interface{}{"program": append([]string(nil), prog...), "attempts": len(attempts), "budget": budget, "fails": fails}})
 				break
 			}
+			// the Coq case: client settings of this moment, budget, scripted failures, what every attempt carried
+			var obsParts []string
+			for _, at := range attempts {
+				one := func(keys []string, get func(string) []string) []int {
+					m := map[int][]int{}
+					for ki, k := range keys {
+						if ki == 0 {
+							continue
+						}
+						for _, v := range get(k) {
+							m[ki] = append(m[ki], valTok(v))
+						}
+					}
+					return flatKV(m)
+				}
+				at := at
+				var ck []int
+				for _, line := range at.header.Values("Cookie") {
+					for _, part := range strings.Split(line, "; ") {
+						if name := strings.SplitN(part, "=", 2)[0]; strings.HasPrefix(name, "c") {
+							n, _ := strconv.Atoi(name[1:])
+							ck = append(ck, n)
+						}
+					}
+				}
+				obsParts = append(obsParts, fmt.Sprintf("(%s, %s, %s)",
+					coqNats(one(hdrKeys, func(k string) []string { return at.header.Values(k) })), coqNats(ck),
+					coqNats(one(formKeys, func(k string) []string { return at.form[k] }))))
+			}
+			rx = append(rx, fmt.Sprintf("RExec {| c_headers := %s; c_cookies := %s; c_form := %s |} %d %d [%s]",
+				coqKV(rc.mp[0]), coqNats(rc.sl[0]), coqKV(rc.mp[2]), budget, fails, strings.Join(obsParts, "; ")))
 			if len(attempts) != fails+1 {
 				r.Fail(hk.Failure{Sig: "re-exec:retry:attempts", What: "number of attempts of this execution differs from scripted failures + 1",
 					Input: map[string]interface{}{"program": append([]string(nil), prog...)}, Got: len(attempts), Want: fails + 1})
@@ -261,6 +314,9 @@ func runReExec(r *hk.Run, e *env, rng *hk.Rand, n int) {
 		}
 		r.Count("reexec.programs")
 		r.Count(fmt.Sprintf("reexec.executions=%d", execs))
+		r.Add(hk.Case{Coq: "(CReexec [" + strings.Join(rx, ";\n   ") + "])",
+			Desc: map[string]interface{}{"kind": "re-exec", "program": append([]string(nil), prog...)}},
+			"reexec:"+strings.Join(prog, ";"), execs >= 2)
 	}
 	e.reset()
 }
